@@ -27,7 +27,11 @@
    shift that collides — the sensitivity self-test of this module.
 
    The environment tampers with the presented context and with the artifact:
-     replace c k   component c gets a different value (alternative k; for `kind`: the other kinds)
+     replace c k   component c gets a different value (alternative k; for `kind`: the other kinds;
+                   for cmdsig `data`: 1 different, 2 truncated, 3/4 the SHA-256 / SHA-512 digest of
+                   the original, 5 its 32-byte prefix — values *related* to what was signed;
+                   for ids / topics: 1 unrelated, 2 differs only in the last byte, 3 only in the
+                   first byte; for versions: 1 next, 2 differs only in the most significant byte)
      move m        a boundary shift: bytes move between neighbouring fields so that the
                    concatenation is unchanged (through a fixed-size field in the middle if needed)
      swap w        two components exchange their values (w = "ids": seal/open device ids)
@@ -44,7 +48,8 @@ EXTENDS Integers, Sequences, FiniteSets, TLC, Json
 CONSTANTS Schemes,     \* which primitives (set of strings, see above)
           MaxTamper,   \* maximal number of tamper steps
           HashModel,   \* "tuple" (the code) | "concat" (sensitivity self-test)
-          PLens        \* plaintext length classes (used by the schemes that encrypt caller data)
+          PLens,       \* plaintext length classes (used by the schemes that encrypt caller data)
+          DataLens     \* cmdsig: command data length classes (0 = small, seeded unit widths; else bytes)
 
 VARIABLES scheme,  \* the primitive of this behaviour
           phase,   \* "tamper" | "checked"
@@ -63,14 +68,14 @@ vars == <<scheme, phase, plen, pres, art, hist, accept>>
 C(n, l, a) == [n |-> n, len |-> l, alts |-> a]
 
 CompsOf(s) ==
-  CASE s = "cmdsig"      -> <<C("key", 1, 1), C("name", 2, 2), C("parent", 2, 1), C("data", 2, 2)>>
+  CASE s = "cmdsig"      -> <<C("key", 1, 1), C("name", 2, 2), C("parent", 2, 3), C("data", 2, 5)>>
     [] s = "wrap"        -> <<C("engine", 1, 1), C("kind", 1, 5), C("id", 1, 1)>>
-    [] s = "groupkey"    -> <<C("key", 1, 1), C("label", 2, 2), C("parent", 2, 1), C("author", 1, 1)>>
-    [] s = "sealedgk"    -> <<C("recipient", 1, 1), C("group", 1, 1)>>
-    [] s = "pskseed"     -> <<C("sender", 1, 1), C("recipient", 1, 1), C("group", 1, 1)>>
-    [] s = "topicmsg"    -> <<C("key", 1, 1), C("version", 1, 1), C("topic", 1, 1), C("senc", 1, 1), C("ssign", 1, 1)>>
-    [] s = "sealedtopic" -> <<C("sender", 1, 1), C("receiver", 1, 1), C("version", 1, 1), C("topic", 1, 1)>>
-    [] s = "afcuni"      -> <<C("parent", 1, 1), C("label", 1, 1), C("seal_id", 1, 1), C("open_id", 1, 1),
+    [] s = "groupkey"    -> <<C("key", 1, 1), C("label", 2, 2), C("parent", 2, 3), C("author", 1, 1)>>
+    [] s = "sealedgk"    -> <<C("recipient", 1, 1), C("group", 1, 3)>>
+    [] s = "pskseed"     -> <<C("sender", 1, 1), C("recipient", 1, 1), C("group", 1, 3)>>
+    [] s = "topicmsg"    -> <<C("key", 1, 1), C("version", 1, 2), C("topic", 1, 3), C("senc", 1, 1), C("ssign", 1, 1)>>
+    [] s = "sealedtopic" -> <<C("sender", 1, 1), C("receiver", 1, 1), C("version", 1, 2), C("topic", 1, 3)>>
+    [] s = "afcuni"      -> <<C("parent", 1, 3), C("label", 1, 3), C("seal_id", 1, 3), C("open_id", 1, 3),
                               C("author", 1, 1), C("peer", 1, 1)>>
 
 \* artifact regions: name, symbolic length (3 = first/mid/last), truncatable/extendable
@@ -187,12 +192,14 @@ Apply(o) ==
     [] o.op = "ext" -> /\ art' = [art EXCEPT ![o.a] = Append(@, -9999)] /\ UNCHANGED pres
 
 ----------------------------------------------------------------------------------
-\* plaintext lengths only matter for the schemes that encrypt caller data
+\* plaintext lengths only matter for the schemes that encrypt caller data; for cmdsig `plen` is
+\* the length class of the command data (values straddling any internal size threshold)
 Encrypts(s) == s \in {"groupkey", "topicmsg"}
+LensOf(s) == IF Encrypts(s) THEN PLens ELSE IF s = "cmdsig" THEN DataLens ELSE {0}
 
 Init == /\ scheme \in Schemes
         /\ phase = "tamper"
-        /\ plen \in (IF Encrypts(scheme) THEN PLens ELSE {0})
+        /\ plen \in LensOf(scheme)
         /\ pres = Orig
         /\ art = OrigArt
         /\ hist = <<>>
